@@ -1,17 +1,10 @@
 import Chewing.Proofs.ConvGlue
 /-!
-Liveness, part 1: under `CompValid` `find_intervals` never panics; with `HasWord` the graph contains an
-edge for every selection and for every symbol outside the selections, hence a chain from `0` to `len`.
+Liveness, part 1: under `CompValid` `find_intervals` never panics and the graph contains an edge for
+every selection and for every symbol outside the selections (a word, or the spelling of a word-less
+syllable), hence a chain from `0` to `len` — for every dictionary.
 -/
 namespace Chewing.Conv
-
-theorem validSel_text_ne {c : Composition} {x : Interval} (h : ValidSel c x) : x.text ≠ [] := by
-  intro he
-  have := h.textLen
-  have := h.nonempty
-  rw [he] at *
-  simp at *
-  omega
 
 theorem phraseOk_total {s e : Nat} {p : Phrase} {sels : List Interval}
     (h : ∀ x ∈ sels, x.text ≠ [] ∧ x.start ≤ x.stop) : ∃ b, phraseOk s e p sels = .ok b := by
@@ -45,21 +38,6 @@ theorem pickBest_total {sels : List Interval} {s e : Nat} {ps : List Phrase} {be
       | some b0 => simp only; split <;> exact ih
     | false => exact ih
 
-theorem pickBest_some_stays {sels : List Interval} {s e : Nat} {ps : List Phrase} {b : Phrase} {r : Option Phrase}
-    (h : pickBest sels s e ps (some b) = .ok r) : r.isSome = true := by
-  induction ps generalizing b with
-  | nil => simp only [pickBest] at h; cases Outcome.ok.inj h; rfl
-  | cons q qs ih =>
-    unfold pickBest at h
-    split at h
-    · simp only at h
-      split at h
-      · exact ih h
-      · exact ih h
-    · exact ih h
-    · cases h
-    · cases h
-
 theorem compValid_sels {c : Composition} (hc : CompValid c) :
     ∀ x ∈ c.selections, x.text ≠ [] ∧ x.start ≤ x.stop :=
   fun x hx => ⟨validSel_text_ne (hc.sels x hx), Nat.le_of_lt (hc.sels x hx).nonempty⟩
@@ -67,6 +45,8 @@ theorem compValid_sels {c : Composition} (hc : CompValid c) :
 theorem findBestPhrase_total {d : Dict} {strat : Strategy} {c : Composition} (hc : CompValid c) (s e : Nat) :
     ∃ r, findBestPhrase d strat c s e = .ok r := by
   unfold findBestPhrase
+  split
+  · exact ⟨none, rfl⟩
   split
   · exact ⟨none, rfl⟩
   split
@@ -115,19 +95,21 @@ theorem selConflict_of_disjoint {c : Composition} (hc : CompValid c) {x : Interv
     simp only [Interval.intersectRange, decide_eq_false_iff_not, decide_eq_true_eq] at h hi
     omega
 
-theorem forcedSel_isSome {c : Composition} {x : Interval} (hx : x ∈ c.selections) :
-    (forcedSel c x.start x.stop).isSome = true := by
-  unfold forcedSel
-  rw [Option.isSome_map, List.find?_isSome]
-  exact ⟨x, hx, by simp⟩
-
 /-- the edge over exactly a selection's range exists -/
 theorem edge_of_selection {d : Dict} {strat : Strategy} {c : Composition} (hc : CompValid c)
     {x : Interval} (hx : x ∈ c.selections) :
     ∃ ph, findBestPhrase d strat c x.start x.stop = .ok (some ph) := by
   have hv := hc.sels x hx
+  have hne : (slice c x.start x.stop).isEmpty = false := by
+    rw [List.isEmpty_eq_false_iff]
+    intro he
+    have := slice_length (s := x.start) hv.inRange
+    rw [he] at this
+    have := hv.nonempty
+    simp only [List.length_nil] at *
+    omega
   unfold findBestPhrase
-  rw [hv.noBreak, selConflict_of_disjoint hc hx]
+  rw [hne, hv.noBreak, selConflict_of_disjoint hc hx]
   simp only [Bool.false_eq_true, if_false]
   split
   · exact ⟨_, rfl⟩
@@ -151,9 +133,6 @@ theorem edge_of_selection {d : Dict} {strat : Strategy} {c : Composition} (hc : 
 theorem hasBreakInside_single (c : Composition) (i : Nat) : hasBreakInside c i (i + 1) = false := by
   simp [hasBreakInside]
 
-/-- no selection intersects position `i` -/
-def Free (c : Composition) (i : Nat) : Prop := c.selections.any (fun sel => sel.intersectRange i (i + 1)) = false
-
 theorem selConflict_of_free {c : Composition} {i : Nat} (hf : Free c i) : selConflict c i (i + 1) = false := by
   unfold selConflict
   rw [List.any_eq_false]
@@ -161,48 +140,29 @@ theorem selConflict_of_free {c : Composition} {i : Nat} (hf : Free c i) : selCon
   have := List.any_eq_false.mp hf y hy
   simp [this]
 
-theorem phraseOk_of_free {c : Composition} (hc : CompValid c) {i : Nat} (hf : Free c i) (p : Phrase) :
-    ∀ sels, (∀ x ∈ sels, x ∈ c.selections) → phraseOk i (i + 1) p sels = .ok true := by
-  intro sels
-  induction sels with
-  | nil => intro _; rfl
-  | cons y ys ih =>
-    intro hsub
-    have hy := hsub y (List.mem_cons_self ..)
-    have hv := hc.sels y hy
-    have hni := List.any_eq_false.mp hf y hy
-    simp only [Interval.intersectRange, decide_eq_true_eq] at hni
-    unfold phraseOk
-    rw [if_neg (validSel_text_ne hv), if_neg (by have := hv.nonempty; omega)]
-    exact ih (fun x hx => hsub x (List.mem_cons_of_mem _ hx))
-
-/-- the edge over a single symbol that no selection intersects exists (syllables: `HasWord`) -/
-theorem edge_of_free {d : Dict} {strat : Strategy} {c : Composition} (hc : CompValid c) (hw : HasWord d strat c)
+/-- the edge over a single symbol that no selection intersects exists — whatever the dictionary holds:
+    a syllable without an acceptable word falls back to its spelling (F02 / F03 repaired) -/
+theorem edge_of_free {d : Dict} {strat : Strategy} {c : Composition} (hc : CompValid c)
     {i : Nat} (hi : i < c.symbols.length) (hf : Free c i) :
     ∃ ph, findBestPhrase d strat c i (i + 1) = .ok (some ph) := by
   have hsome : c.symbols[i]? = some c.symbols[i] := List.getElem?_eq_getElem hi
   have hs := slice_one hsome
   unfold findBestPhrase
   rw [hasBreakInside_single, selConflict_of_free hf, hs]
-  simp only [Bool.false_eq_true, if_false]
+  simp only [List.isEmpty_cons, Bool.false_eq_true, if_false]
   cases hx : c.symbols[i] with
   | chr cp => exact ⟨_, rfl⟩
   | syl k =>
     simp only [List.any_cons, Sym.isSyl, Bool.not_true, List.any_nil, Bool.or_self, Bool.false_eq_true, if_false,
       sylPrefix]
-    have hne := hw k (by rw [← hx]; exact List.getElem_mem hi)
-    cases hl : d.lookup [k] strat with
-    | nil => exact absurd hl hne
-    | cons p ps =>
-      unfold pickBest
-      rw [phraseOk_of_free hc hf p _ (fun _ h => h)]
-      simp only [if_true]
-      obtain ⟨r, hr⟩ := pickBest_total (s := i) (e := i + 1) (ps := ps) (best := some p) (compValid_sels hc)
-      rw [hr]
-      have := pickBest_some_stays hr
-      cases r with
-      | none => cases this
-      | some q => exact ⟨_, rfl⟩
+    obtain ⟨r, hr⟩ := pickBest_total (s := i) (e := i + 1) (ps := d.lookup [k] strat) (best := none)
+      (compValid_sels hc)
+    rw [hr]
+    cases r with
+    | some q => exact ⟨_, rfl⟩
+    | none =>
+      simp only [spelledSyl]
+      cases forcedSel c i (i + 1) <;> exact ⟨_, rfl⟩
 
 /-! ### a chain from `0` to `len` exists -/
 
@@ -210,7 +170,7 @@ theorem edge_of_free {d : Dict} {strat : Strategy} {c : Composition} (hc : CompV
 def Boundary (c : Composition) (a : Nat) : Prop := ∀ x ∈ c.selections, ¬ (x.start < a ∧ a < x.stop)
 
 theorem reach_of_boundary {d : Dict} {strat : Strategy} {c : Composition} {es : List Edge}
-    (hc : CompValid c) (hw : HasWord d strat c) (hes : findIntervals d strat c = .ok es) :
+    (hc : CompValid c) (hes : findIntervals d strat c = .ok es) :
     ∀ (n a : Nat), c.symbols.length - a = n → a ≤ c.symbols.length → Boundary c a →
       ∃ p, IsChain es a c.symbols.length p := by
   intro n
@@ -242,7 +202,7 @@ theorem reach_of_boundary {d : Dict} {strat : Strategy} {c : Composition} {es : 
         obtain ⟨p, hp⟩ := ih (c.symbols.length - x.stop) (by have := hv.nonempty; omega) x.stop rfl hv.inRange hb'
         exact ⟨⟨x.start, x.stop, ph⟩ :: p, hmem, hxa, hp⟩
       | false =>
-        obtain ⟨ph, hph⟩ := edge_of_free (d := d) (strat := strat) hc hw hlt hany
+        obtain ⟨ph, hph⟩ := edge_of_free (d := d) (strat := strat) hc hlt hany
         have hmem : (⟨a, a + 1, ph⟩ : Edge) ∈ es :=
           collectEdges_complete hes (mem_pairs.mpr ⟨hlt, by omega, by omega⟩) hph
         have hb' : Boundary c (a + 1) := by
@@ -254,10 +214,10 @@ theorem reach_of_boundary {d : Dict} {strat : Strategy} {c : Composition} {es : 
         exact ⟨⟨a, a + 1, ph⟩ :: p, hmem, rfl, hp⟩
     · exact ⟨[], by show a = c.symbols.length; omega⟩
 
-/-- with a word for every syllable the interval graph has a path from `0` to `len` -/
+/-- the interval graph of a valid composition has a path from `0` to `len`, whatever the dictionary -/
 theorem reach_zero {d : Dict} {strat : Strategy} {c : Composition} {es : List Edge}
-    (hc : CompValid c) (hw : HasWord d strat c) (hes : findIntervals d strat c = .ok es) :
+    (hc : CompValid c) (hes : findIntervals d strat c = .ok es) :
     ∃ p, IsChain es 0 c.symbols.length p :=
-  reach_of_boundary hc hw hes _ 0 rfl (Nat.zero_le _) (fun _ _ h => by omega)
+  reach_of_boundary hc hes _ 0 rfl (Nat.zero_le _) (fun _ _ h => by omega)
 
 end Chewing.Conv
